@@ -668,9 +668,33 @@ func c12KnownValue(c *Ctx, rule string) {
 			} else if g := lexicalGuards(pm, store, pc.Decl.Body); len(g) > 0 {
 				// only the enclosing value-type switch of parseCall may guard it
 				for _, a := range g {
-					if a.Tag == nil {
-						bad = "guarded by `" + exprStr(a.E) + "`"
+					if a.Tag != nil {
+						continue
 					}
+					// `!slices.Contains(<package-level list of names>, n.Func.Name)`: the list is the exemption table
+					ge, gt := ast.Unparen(a.E), a.Truth
+					for {
+						u, isU := ge.(*ast.UnaryExpr)
+						if !isU || u.Op != token.NOT {
+							break
+						}
+						ge, gt = ast.Unparen(u.X), !gt
+					}
+					if call, ok := ge.(*ast.CallExpr); ok && !gt && len(call.Args) == 2 {
+						if fn := Callee(info, call); fn != nil && fn.Pkg() != nil && fn.Pkg().Path() == "slices" && fn.Name() == "Contains" {
+							if v, isVar := objOf(info, call.Args[0]).(*types.Var); isVar && v.Pkg() != nil && v.Parent() == v.Pkg().Scope() {
+								if names, _, okList := stringSliceVar(c.P, relPkg(v.Pkg().Path()), v.Name()); okList {
+									for _, nm := range names {
+										if _, pt := passThrough[nm]; !pt {
+											bad = "function " + nm + " is exempt although it changes values"
+										}
+									}
+									continue
+								}
+							}
+						}
+					}
+					bad = "guarded by `" + exprStr(a.E) + "`"
 				}
 			}
 			c.Check(bad == "", rule, "parseCall:known value cleared for argument-derived sources", store.Pos(), "cleared unless the function passes values through", bad)
